@@ -58,7 +58,7 @@ class Net(object):
         self.pub_log.append((channel, pub_id, msg))
         for sub in list(self.subs.get(channel, [])):
             sub_id, stopic, cb, owner = sub
-            if stopic and topic != stopic:
+            if stopic and not str(topic).startswith(str(stopic)):
                 continue
             if self.auto:
                 cb(topic, seams.wire(msg))
@@ -175,11 +175,21 @@ class Getter(object):
         pass
 
 
+def chan_key(channel, url):
+    '''
+    channel identity: the name, or `<ns>:<name>` for urls of the form
+    mem://@<ns>/... (several sides with their own bridges of the same name)
+    '''
+    if url and '@' in str(url):
+        return str(url).split('@')[1].split('/')[0] + ':' + channel
+    return channel
+
+
 class Publisher(object):
 
     def __init__(self, channel, url=None, log=None, prof=None, path=None):
-        self.channel = channel
-        self.pub_id  = current().next_id('pub.' + channel)
+        self.channel = chan_key(channel, url)
+        self.pub_id  = current().next_id('pub.' + self.channel)
 
     def put(self, topic, msg):
         current().publish(self.channel, self.pub_id, topic, msg)
@@ -189,7 +199,7 @@ class Subscriber(object):
 
     def __init__(self, channel, url=None, topic=None, cb=None, log=None,
                        prof=None, path=None):
-        self.channel = channel
+        self.channel = chan_key(channel, url)
         self.sub_ids = list()
         if cb:
             self.subscribe(topic, cb)
